@@ -1,7 +1,7 @@
 (* Concrete reference graphs on which the premises of the C02/C03 theorems are discharged by computation. *)
 From Coq Require Import List String Bool.
 From Spec Require Import Base.Json Base.Url Codec.Types Codec.Gen_Tables Codec.Codec Codec.CodecFacts
-  Expand.Expand Expand.ExpandFacts Expand.ExpandSim Expand.ExpandSimCheck Expand.ExpandCycle.
+  Expand.Expand Expand.ExpandFacts Expand.ExpandSim Expand.ExpandSimCheck Expand.ExpandCycle Expand.ExpandElem Expand.ExpandSpecSim.
 Import ListNotations.
 Local Open Scope string_scope.
 
@@ -63,3 +63,30 @@ Definition el_enodes : list (string * string * list (string * json)) :=
   [("Parameter", el_other_url, el_holder); ("Parameter", el_root_url, [("$ref", JStr "#/parameters/p0")]); ("Parameter", el_root_url, el_p0)].
 Definition el_nodes := Eval vm_compute in collect gen_env el_docs "/" 100 [(el_root_url, JObj [("$ref", JStr "#/definitions/n")])] [].
 Definition el_live := Some (el_root_url, el_root).
+
+(* a whole specification: a recursive definition, a shared parameter that is a chain into another document, a shared response
+   with a recursive schema, a path item with its own parameter (a reference to the shared one) and an operation whose
+   parameters and responses are references and literals, a vendor extension among the responses *)
+Definition sp_root_url := "file:///r/root.json".
+Definition sp_other_url := "file:///r/sub/o.json".
+Definition sp_root : json := Eval vm_compute in nf "Swagger" (pj
+ "{""swagger"":""2.0"",""info"":{""title"":""t"",""version"":""1""},
+   ""definitions"":{""A"":{""type"":""object"",""properties"":{""next"":{""$ref"":""#/definitions/A""},""o"":{""$ref"":""sub/o.json#/definitions/B""}}}},
+   ""parameters"":{""P"":{""$ref"":""sub/o.json#/parameters/Q""},""L"":{""name"":""l"",""in"":""body"",""schema"":{""$ref"":""#/definitions/A""}}},
+   ""responses"":{""R"":{""description"":""r"",""schema"":{""$ref"":""#/definitions/A""}}},
+   ""paths"":{""/x"":{""parameters"":[{""$ref"":""#/parameters/P""}],
+                      ""get"":{""parameters"":[{""name"":""b"",""in"":""body"",""schema"":{""$ref"":""sub/o.json#/definitions/B""}},{""$ref"":""#/parameters/L""}],
+                               ""responses"":{""200"":{""$ref"":""#/responses/R""},""default"":{""description"":""d""},""x-ext"":{""a"":1}}}},
+              ""/y"":{""$ref"":""sub/o.json#/paths/~1z""}}}").
+Definition sp_other : json := Eval vm_compute in nf "Swagger" (pj
+ "{""swagger"":""2.0"",""info"":{""title"":""o"",""version"":""1""},
+   ""definitions"":{""B"":{""type"":""array"",""items"":{""$ref"":""../root.json#/definitions/A""}}},
+   ""parameters"":{""Q"":{""$ref"":""#/parameters/Q2""},""Q2"":{""name"":""q"",""in"":""query"",""type"":""string""}},
+   ""paths"":{""/z"":{""post"":{""parameters"":[{""$ref"":""#/parameters/Q""}],""responses"":{""200"":{""description"":""ok"",""schema"":{""$ref"":""#/definitions/B""}}}}}}}").
+Definition sp_docs := [(sp_root_url, sp_root); (sp_other_url, sp_other)].
+Definition sp_members : list (string * json) := match sp_root with JObj m => m | _ => [] end.
+Definition sp_enodes := Eval vm_compute in collect_e gen_env sp_docs "/" 200 (root_items sp_root_url sp_members) [].
+Definition sp_nodes := Eval vm_compute in collect gen_env sp_docs "/" 300 (schema_starts sp_root_url sp_members sp_enodes) [].
+Definition sp_bad0 := Eval vm_compute in def_keys sp_members.
+Definition sp_ranks := Eval vm_compute in ranks_of gen_env sp_docs "/" sp_enodes.
+Definition sp_live := Some (sp_root_url, sp_root).
